@@ -108,6 +108,27 @@ theorem failed_compact_continues {T : List Tx} {fs : FS} {m : Mem} {cs : List CT
   intro out
   exact (failed_compact (cfg := cfgOfSource) source_ok.1 C02.leafCap_pos h ht hns k (by omega)).2.2.2 hk1 hk2
 
+/-- **C08 (failed compaction, every step — page phase and log sync included: the database
+    continues after a restart)**: whatever step of `compact` failed, when the process then exits or
+    is killed (the handle is dropped; no destructor does I/O) the files are a closed database for
+    the committed list: the next `open` succeeds, shows exactly that list, and every later
+    operation and crash is covered by `C02.crash_prefix` again.  (The same-handle continuation after
+    an error in the page phase or in the log sync is enumerated on model and real engine, not
+    proved: see `design/C08.md` for the invariant it needs.) -/
+theorem failed_compact_restart {T : List Tx} {fs : FS} {m : Mem} {cs : List CTx} {c : Nat}
+    (h : InvOpen T fs m cs c) (ht : TailPre cfgOfSource fs m) (hns : NoLiveSplit cfgOfSource m fs.pv) (k : Nat)
+    (hk : k < (ioSteps (compactA cfgOfSource m fs.pv fs.wf)).length) :
+    let out := run (compactA cfgOfSource m fs.pv fs.wf) (.faultAt k) fs m
+    Closed T (out.fs.crash .proc) ∧
+    ∃ m' fs', recover cfgOfSource (out.fs.crash .proc) = .ok (m', fs') ∧ Spec.Content.same (content m' fs'.pv) (Spec.run T) := by
+  intro out
+  obtain ⟨_, h2, _, _⟩ := failed_compact (cfg := cfgOfSource) source_ok.1 C02.leafCap_pos h ht hns k hk
+  obtain ⟨T', hT', hr⟩ := h2 .proc rfl
+  simp only [List.mem_singleton] at hT'
+  subst hT'
+  have hcl : Closed T' (out.fs.crash .proc) := ⟨crash_flat _ _, hr⟩
+  exact ⟨hcl, (C02.open_every_step hcl).2⟩
+
 /-- **C08 (failed checkpoint-on-close is harmless)**: an I/O error at ANY I/O step of
     `checkpoint_on_close` (page sync, temporary file creation / writes / sync, rename, log sync) is
     reported, what the handle showed is unchanged, and every crash image of the files — process
